@@ -335,6 +335,10 @@ func run(c *core.Ctx) error {
 	c.Cov("sources", len(sources))
 	c.Logf("scheduled: %d conform and equal the reference (%d (n,limit,target) instances); free: %d equal the reference; %d violations", okSched, len(covered), okFree, c.Violations())
 
+	if err := stressStage(c, pool); err != nil {
+		return err
+	}
+
 	// ---- trace validation of the free-running checks
 	okTraces := 0
 	if len(traces) > 0 {
